@@ -68,8 +68,10 @@ def analyse(r, prop, res):
     for c in res["cases"]:
         op = c.split(" ", 1)[0]
         count[op] = count.get(op, 0) + 1
-    mine = hits.get(prop, []) if prop == "C02" else []
-    if prop == "C02":
+    # the oracle column is tagged C02; its statement ("the real final DFA is dead / unlabelled / labelled as the rules say") is
+    # literally C10's as well ("subset construction, state merging and range merging change nothing observable")
+    mine = hits.get("C02", []) if prop in ("C02", "C10") else []
+    if prop in ("C02", "C10"):
         r.obligations.append(("oracle lexmodel: on every word of length <= 3 over the mode's alphabet the REAL final DFA is dead / unlabelled / labelled "
                               "exactly as the rule-level definition says (%d words, %d modes; support, not proof)" % (counters.get("words", 0), counters.get("modes", 0)),
                               not mine and counters.get("modes", 0) > 0, "%d modes with a differing word" % len(mine)))
